@@ -1,6 +1,6 @@
 (* C02 - Index-ordered select visits exactly the indexed rows in index order.
    Property theorems only; proofs are in Proofs/. *)
-From SQ Require Import Model.Base Model.Record Model.Btree Model.Low Model.High
+From SQ Require Import Model.Base Model.Record Model.Btree Model.Cmp Model.Low Model.High
      Spec.Flat Spec.Deliver Proofs.BtreeP Proofs.LowP Proofs.ScanP Proofs.HighP.
 
 (* the index traversal, generic in the tree, including entries stored in
@@ -32,3 +32,24 @@ Theorem C02_indexed_select : forall pg op npages S cb sc ms table columns, maste
   = run_flat (via_rowid pg op npages S cb ci troot) (index_rows pg op npages iroot) s.
 Proof. exact indexed_select_rowid_table. Qed.
 Print Assumptions C02_indexed_select.
+
+(* ... and on a WITHOUT ROWID table: per index entry, in index order, each once, the row of the
+   primary key tree found by the equality scan with the key taken from the entry's primary key
+   columns; a failing lookup or a missing row ends the select with that error *)
+Theorem C02_indexed_select_without_rowid : forall pg op npages S cb sc ms table columns, master pg op npages = (Continue, ms) ->
+  forall iname ind ci troot iroot pk s, s_worowid sc = true ->
+  find_index sc iname = Some ind -> to_ci_nonrowid sc columns = Ok ci ->
+  find_root ms name_table table = Ok troot -> find_root ms name_index (si_name ind) = Ok iroot ->
+  as_dbkey (null_key (length (s_pk sc))) (s_pk sc) = Ok pk ->
+  h_indexed_select pg op npages S cb sc table iname columns s
+  = run_flat (via_pk pg op npages S cb ci troot (pk_columns (s_pk sc) (si_cols ind)) pk) (index_rows pg op npages iroot) s.
+Proof. exact indexed_select_norowid_table. Qed.
+Print Assumptions C02_indexed_select_without_rowid.
+
+(* the per-entry lookup key: setKey changes the values only - collation and direction stay those of
+   the primary key's columns - and the values are the entry's columns at the primary key's positions *)
+Theorem C02_lookup_key_keeps_flags : forall r idx k k', length idx = length k -> set_key r idx k = Ok k' ->
+  map kcoll k' = map kcoll k /\ map kdesc k' = map kdesc k /\
+  map kv k' = map (fun v => nth (Z.to_nat v) r VNull) idx /\ Forall (fun v => v < Z.of_nat (length r)) idx.
+Proof. exact set_key_flags. Qed.
+Print Assumptions C02_lookup_key_keeps_flags.
